@@ -15,7 +15,7 @@ import (
 
 func init() {
 	register(&Property{ID: "C03", Run: runC03, Meta: report.Meta{ID: "C03",
-		Explanation: "DECIDED (for all grammars, memoization subsets and inputs at once): R03a in every memoizing parser the wrapped parser runs only on the not-found edge of the cache lookup and every path from it to a return passes through Save with the lookup's index and position; R03b what is stored, what a hit returns and what a miss returns are the wrapped call's own three results (faithful replay); R03c the cache key is a captured variable defined once per Memoize call from an atomic increment of a counter with no other writer, and Save/Get index the two-level map with the same parameters; R03d in parser scope the only non-empty IntSet constructions are on the curtailment return of a memoizing parser, so without left recursion every curtailing set and every stored context is empty and Get cannot reject; R03f the stored context is pruned to exactly the wrapped call's curtailing set on every path (an unpruned context makes entries non-reusable and the wrapped parser run twice at one position); R03e parse-time code is deterministic: no goroutine/select/channel, no call into time/rand/os/runtime, every range over a map has an order-insensitive body; cache entries are never written after Save. Together: at most one run per (parser, position) for left-recursion-free grammars, and identical replay. NOT DECIDED: equality of the result lists of the memoized and the plain grammar as a relation between two executions.",
+		Explanation: "DECIDED (for all grammars, memoization subsets and inputs at once): R03a in every memoizing parser the wrapped parser runs only on the not-found edge of the cache lookup and every path from it to a return passes through Save with the lookup's index and position; R03b what is stored, what a hit returns and what a miss returns are the wrapped call's own three results (faithful replay); R03c the cache key is a captured variable defined once per Memoize call from an atomic increment of a counter with no other writer, and Save/Get index the two-level map with the same parameters; R03d in parser scope the only non-empty IntSet constructions are on the curtailment return of a memoizing parser, so without left recursion every curtailing set and every stored context is empty and Get cannot reject; R03f the stored context is pruned to exactly the wrapped call's curtailing set on every path (an unpruned context makes entries non-reusable and the wrapped parser run twice at one position); R03e parse-time code is deterministic: no goroutine/select/channel, no call into time/rand/os/runtime, every range over a map has an order-insensitive body; cache entries are never written after Save; R03h apart from ResultCache.Save a memoizing parser writes no memory it did not allocate (no SetError / RegisterCall of its own), so the context it leaves behind is the plain grammar's. Together: at most one run per (parser, position) for left-recursion-free grammars, and identical replay. NOT DECIDED: equality of the result lists of the memoized and the plain grammar as a relation between two executions.",
 		Assumptions: commonAssumptions, TrustedBase: commonTrusted}})
 }
 
